@@ -1,5 +1,6 @@
 import Pdq.Props.C10
 import Pdq.Model.Linearize
+import Pdq.Lemmas.Linearize
 import Pdq.Bridge
 import Mathlib.Algebra.DualNumber
 
@@ -242,21 +243,6 @@ theorem linearize_iso_exact_of_isotropic [CharZero K] (n d m : ℕ) (hd : 0 < d)
   field_simp
 
 
-/-- the residual program of the ODE `u^(K) = f`: `residual_from_ode` of an unlifted ODE -/
-def odeResidual (Kk : ℕ) (f : List (Expr K)) : List (Expr K) := (residualFromOde [Kk] [f]).getD 0 []
-
-theorem odeResidual_eq (Kk : ℕ) (f : List (Expr K)) : odeResidual Kk f
-    = (List.range f.length).map fun a => add (var Kk a) (neg (f.getD a (const 0))) := by
-  simp [odeResidual, residualFromOde]
-
-theorem odeResidual_length (Kk : ℕ) (f : List (Expr K)) : (odeResidual Kk f).length = f.length := by
-  simp [odeResidual_eq]
-
-theorem odeResidual_get (Kk : ℕ) (f : List (Expr K)) (a : Fin (odeResidual Kk f).length) :
-    (odeResidual Kk f).get a = add (var Kk a.val) (neg (f.getD a.val (const 0))) := by
-  rw [List.get_eq_getElem, List.getElem_of_eq (odeResidual_eq Kk f) a.isLt]
-  simp
-
 /-- **`ts1_eq_residual`**: the first-order linearisation of the ODE constraint (`constraint_ode_ts1`)
 *is* the linearisation of the residual `u^(K) − f = 0`: its Jacobian is `e_K ⊗ I − ∂f/∂x` and its
 value at the linearisation point is `ξ_K − f(ξ, t)` -/
@@ -334,44 +320,6 @@ end linearise
 
 section residual_route
 variable [Field K] [CharZero K]
-
-theorem iter_D_residual (Kk a j : ℕ) (f : Expr K) :
-    iter D j (add (var Kk a) (neg f)) = add (var (Kk + j) a) (neg (iter D j f)) := by
-  induction j generalizing Kk f with
-  | zero => rfl
-  | succ j ih =>
-      simp only [iter, D]
-      rw [ih (Kk + 1) (D f)]
-      congr 2; omega
-
-/-- `taylorCoeffs` is the only coefficient list that starts with `inits` and satisfies the recurrence -/
-theorem tc_unique (fs : List (Expr K)) (inits : List (List K)) (t : K) (N : ℕ)
-    (hord : ∀ f ∈ fs, f.order ≤ inits.length) (c : List (List K)) (hlen : c.length = inits.length + N)
-    (hinit : ∀ k < inits.length, c.getD k [] = inits.getD k [])
-    (hrec : ∀ j < N, c.getD (inits.length + j) [] = fs.map fun f => evalOn c t (iter D j f)) :
-    c = taylorCoeffs fs inits t N := by
-  have key : ∀ k, k < inits.length + N → c.getD k [] = (taylorCoeffs fs inits t N).getD k [] := by
-    intro k
-    induction k using Nat.strong_induction_on with
-    | _ k ih =>
-      intro hk
-      rcases Nat.lt_or_ge k inits.length with h | h
-      · rw [hinit k h, tc_inits fs inits t N k h]
-      · obtain ⟨j, rfl⟩ : ∃ j, k = inits.length + j := ⟨k - inits.length, by omega⟩
-        rw [hrec j (by omega), tc_get fs inits t hord (by omega)]
-        refine List.map_congr_left fun f hf => ?_
-        refine evalOn_congr _ _ _ _ fun k' hk' => ?_
-        have := order_iter_D_le f j
-        have := hord f hf
-        exact ih k' (by omega) (by omega)
-  exact list_ext_getD [] (by rw [hlen, tc_length]) fun k hk => key k (by omega)
-
-
-
-theorem odeResidual_getD (Kk : ℕ) (f : List (Expr K)) (a : ℕ) (ha : a < f.length) :
-    (odeResidual Kk f).getD a (const 0) = add (var Kk a) (neg (f.getD a (const 0))) := by
-  rw [odeResidual_eq]
-  simp [List.getD_eq_getElem?_getD, ha]
 
 theorem odeResidual_order (Kk : ℕ) (f : List (Expr K)) (hord : ∀ g ∈ f, g.order ≤ Kk) :
     ∀ r ∈ odeResidual Kk f, r.order ≤ Kk + 1 := residual_from_ode_order Kk f hord
